@@ -1,4 +1,5 @@
 import UsualProofs.C15.Runs
+import UsualProofs.C15.Examples
 /-! Property theorems for C15 — hash table, binary heap, list_sort, List/StatList, SHList
     match their abstract models.
 
@@ -7,7 +8,7 @@ import UsualProofs.C15.Runs
     lean/UsualProofs/C15/*.lean.  Every theorem below is followed by an `example` that
     instantiates it on a concrete non-trivial value. -/
 namespace UsualProps.C15
-open Usual.C15 UsualProofs.C15 UsualProofs.C15.Runs
+open Usual.C15 UsualProofs.C15 UsualProofs.C15.Runs UsualProofs.C15.Examples
 
 /-! ## list_sort (usual/list.c): a stable sorted permutation, for every total preorder -/
 section SortSec
@@ -53,12 +54,6 @@ theorem sort_links_consistent (le : Nat → Nat → Bool) (s : DL) (l : Nat) (xs
   obtain ⟨r, f⟩ := sort_isL le s l xs fuel h hl0 h0 hf
   have := toList_eq r fuel (by rw [(listSort_perm le xs).length_eq]; exact hf)
   exact ⟨this.1, this.2, f⟩
-
-/-- nodes 5,6,7,8 with keys 3,1,3,1 appended to head 1 -/
-def exKey (x : Nat) : Nat := if x = 6 ∨ x = 8 then 1 else 3
-def exDL : Usual.C15.DList.DL :=
-  let s := Usual.C15.DList.listInit Usual.C15.DList.empty 1
-  [5, 6, 7, 8].foldl (fun s x => Usual.C15.DList.listAppend s 1 x) s
 
 example : Usual.C15.DList.toList (Usual.C15.DList.listSort (leKey exKey) exDL 1 9) 1 9 = [6, 8, 5, 7] ∧
     Usual.C15.DList.toListRev (Usual.C15.DList.listSort (leKey exKey) exDL 1 9) 1 9 = [7, 5, 8, 6] := by decide +kernel
@@ -207,17 +202,6 @@ theorem ht_refines_multimap (cmp : Nat → Nat → Bool) (k : Nat) (hk : 1 ≤ k
   rw [contents_cons, contents_nil, contents_create] at this
   exact this
 
-/-- the comparison of the harness's exact mode, and a history on a size-4 table: four keys with
-    the same home slot (chain growth), a delete with compaction, a copy-resize, two more inserts -/
-def eqCmp (a b : Nat) : Bool := a == b
-def exHt : List HtOp :=
-  [.ins 0 1 none, .ins 4 2 none, .ins 8 3 none, .ins 12 4 none, .del 4 (some 2), .copy 3,
-   .ins 8 5 none, .ins 16 6 (some 6), .del 8 (some 3)]
-theorem exHt_valid : ∀ op, op ∈ exHt → op.valid := by
-  intro op h
-  simp only [exHt, List.mem_cons, List.not_mem_nil, or_false] at h
-  rcases h with rfl | rfl | rfl | rfl | rfl | rfl | rfl | rfl | rfl <;> simp [HtOp.valid]
-
 example : ∃ h' k', htRun eqCmp [create (2 ^ 2)] exHt = some h' ∧ HtInv k' h' ∧ SpecTrace eqCmp [] exHt (contents h') :=
   ht_refines_multimap eqCmp 2 (by decide) exHt exHt_valid
 example : (htRun eqCmp [create (2 ^ 2)] exHt).map contents = some [(0, 1), (8, 5), (12, 4), (16, 6)] := by decide +kernel
@@ -357,12 +341,6 @@ theorem list_refines_deque (le : Nat → Nat → Bool) (fuel : Nat) (s : DL) (l 
   have := toList_eq ring fuel hf
   exact ⟨this.1, this.2, hr.count⟩
 
-def exL : List LOp := [.app 5, .app 6, .pre 7, .app 8, .rem 6, .sort, .pop, .pre 9]
-
-theorem exL_valid : LValid (leKey exKey) 10 1 [] exL := by
-  simp only [exL, LValid, lspec, LOp.ok]
-  decide
-
 example : toList (lrun (leKey exKey) 10 (statInit DList.empty 1) exL).1 1 10 = [9, 7, 5] ∧
     (lrun (leKey exKey) 10 (statInit DList.empty 1) exL).2.count = 3 := by
   have := list_refines_deque (leKey exKey) 10 DList.empty 1 (by decide) exL exL_valid (by decide)
@@ -425,8 +403,6 @@ theorem list_del_frame (s : DL) (l : Nat) (A B : List Nat) (x : Nat) (h : IsL s 
     have h2 : z ≠ s.next.get x := fun e => hdisj z hz (e ▸ hn)
     rw [if_neg h1, if_neg h2]
 
-/-- a second list (head 2: 10, 11) next to `exDL`'s list -/
-def exDL2 : DL := [10, 11].foldl (fun s x => listAppend s 2 x) (listInit exDL 2)
 example : toList (listDel exDL2 6) 2 9 = [10, 11] ∧ toList (listDel exDL2 6) 1 9 = [5, 7, 8] ∧
     toList (listDel exDL2 6) 6 9 = [] := by decide +kernel
 
@@ -457,17 +433,11 @@ theorem shlist_refines_deque (len lo : Nat) (hlo : lo < len) (m : Mem) (base : N
   refine ⟨by rw [this.1]; exact cancel _, ?_⟩
   rw [this.2, ← List.map_reverse]; exact cancel _
 
-def exS : List SOp := [.app 32, .app 48, .move 300, .pre 64, .rem 48, .move 8, .app 80, .pop, .move 700]
-
-theorem exS_valid : SValid 128 0 [] exS := by
-  simp only [exS, SValid, sspec, SOp.ok]
-  decide
-
-example : (toList (srun 128 0 { mem := init emptyMem 100, base := 100 } exS).mem 700 9).map (· - 700)
+example : (toList (srun 96 0 { mem := init emptyMem 10, base := 10 } exS).mem 150 9).map (· - 150)
     = [32, 80] := by
-  have := shlist_refines_deque 128 0 (by decide) emptyMem 100 (by decide) exS exS_valid 9 (by decide)
+  have := shlist_refines_deque 96 0 (by decide) emptyMem 10 (by decide) exS exS_valid 9 (by decide)
   have e : sspecRun [] exS = [32, 80] := by decide +kernel
-  have eb : (srun 128 0 { mem := init emptyMem 100, base := 100 } exS).base = 700 := by decide +kernel
+  have eb : (srun 96 0 { mem := init emptyMem 10, base := 10 } exS).base = 150 := by decide +kernel
   rw [e] at this
   have h1 := this.1
   rw [eb] at h1
@@ -493,17 +463,15 @@ theorem shlist_relocate (m : Mem) (old len new l : Nat) (xs : List Nat) (h : IsS
   rw [← List.map_reverse]
   exact cancel xs.reverse (fun z hz => (hreg z (List.mem_cons_of_mem _ (List.mem_reverse.mp hz))).1)
 
-/-- head at 100, nodes at 116, 148 appended, then node 132 prepended -/
-def exM : Mem := prepend (append (append (init emptyMem 100) 100 116) 100 148) 100 132
-example : (toList (relocate exM 100 64 300) 300 9).map (· - 300) = [32, 16, 48] ∧
-    (toList exM 100 9).map (· - 100) = [32, 16, 48] := by decide +kernel
+example : (toList (relocate exM 10 64 80) 80 9).map (· - 80) = [32, 16, 48] ∧
+    (toList exM 10 9).map (· - 10) = [32, 16, 48] := by decide +kernel
 
 /-- the reading operations see the abstract sequence: `shlist_empty`, `shlist_first`, `shlist_last` -/
 theorem shlist_reads (m : Mem) (l : Nat) (xs : List Nat) (h : IsSH m l xs) (hl : 0 < l) :
     (isEmpty m l = true ↔ xs = []) ∧ first m l = xs.head? ∧ last m l = xs.getLast? :=
   ⟨empty_iff h hl, first_eq h hl, last_eq h hl⟩
 
-example : isEmpty exM 100 = false ∧ first exM 100 = some 132 ∧ last exM 100 = some 148 := by decide +kernel
+example : isEmpty exM 10 = false ∧ first exM 10 = some 42 ∧ last exM 10 = some 58 := by decide +kernel
 
 end SHListSec
 
